@@ -29,7 +29,7 @@
 
 #include <xercesc/util/XercesDefs.hpp>
 
-XERCES_CPP_NAMESPACE_BEGIN
+namespace XERCES_CPP_NAMESPACE {
 
 class XMLUTIL_EXPORT VerifHooks
 {
@@ -56,11 +56,11 @@ public:
     static HookFn fgHook;
 };
 
-XERCES_CPP_NAMESPACE_END
+}
 
 #define XERCES_VERIF_POINT(pt, obj, a, b) \
-    do { if (XERCES_CPP_NAMESPACE_QUALIFIER VerifHooks::fgHook) \
-        XERCES_CPP_NAMESPACE_QUALIFIER VerifHooks::fgHook((int)(XERCES_CPP_NAMESPACE_QUALIFIER VerifHooks::pt), (obj), (XMLSize_t)(a), (XMLSize_t)(b)); } while (0)
+    do { if (XERCES_CPP_NAMESPACE::VerifHooks::fgHook) \
+        XERCES_CPP_NAMESPACE::VerifHooks::fgHook((int)(XERCES_CPP_NAMESPACE::VerifHooks::pt), (obj), (XMLSize_t)(a), (XMLSize_t)(b)); } while (0)
 
 #define XERCES_VERIF_POINT_IF(cond, pt, obj, a, b) \
     do { if (cond) XERCES_VERIF_POINT(pt, obj, a, b); } while (0)
